@@ -3,7 +3,10 @@
 // context) and martian.Proxy driven directly (rig "b": Serve / Shutdown(ctx) / Close). A driver places
 // the shutdown at a random point relative to accept, TLS handshake, idle wait, partial request head,
 // slow origin, response write to a slow reader, CONNECT dial and tunnel copy, with 1-32 connections in
-// different phases and clients that vanish. The observed history is fed to the Lean acceptor
+// different phases and clients that vanish. A CONNECT whose dial completes only after the shutdown began
+// (latedial.go: rigs a and b, direct and through a scripted upstream proxy) must get the tunnel its 200
+// announces: echo traffic through it during the shutdown, ended by the client, by the target or by the
+// shutdown deadline. The observed history is fed to the Lean acceptor
 // (lean/FwdVerif/Driver/C11.lean: is it a behaviour of Model/C11.lean?) and the property's clauses are
 // evaluated on it. A second family of cases (matrix.go) crosses the shutdown-timeout configuration
 // {0 = no limit, shorter than the in-flight work, long} with in-flight work that outlasts a short
@@ -29,14 +32,16 @@ func init() {
 
 // Case is one shutdown of one proxy instance.
 type Case struct {
-	Kind          string       `json:"kind"`             // "a" = forwarder.HTTPProxy.Run, "b" = martian.Proxy Serve/Shutdown/Close, "c" = accept/registration race sampler, "s" = forwarder.HTTPServer.Run (API server)
-	TLS           bool         `json:"tls"`              // TLS listener
-	PP            bool         `json:"pp,omitempty"`     // a: PROXY-protocol listener (every client sends a v1 header first)
-	TimeoutMs     int          `json:"timeout_ms"`       // shutdown timeout (a, s: config, 0 = no limit as --shutdown-timeout documents; b: context deadline, 0 = a context that is never done)
-	Matrix        string       `json:"matrix,omitempty"` // shutdown-timeout matrix (matrix.go): "none" (timeout 0) | "short" (shorter than the in-flight work) | "long"; "" = general generator
-	Op            string       `json:"op"`               // b: "shutdown" | "close" | "shutdown+close" (Close called while Shutdown waits)
-	ListenerFirst bool         `json:"listener_first"`   // b: close the listener before Shutdown (as HTTPProxy.run does) or after it returned
-	Trigger       string       `json:"trigger"`          // "ready": once every script reached its phase; "race": DelayUs after launching them
+	Kind          string       `json:"kind"`               // "a" = forwarder.HTTPProxy.Run, "b" = martian.Proxy Serve/Shutdown/Close, "c" = accept/registration race sampler, "s" = forwarder.HTTPServer.Run (API server)
+	TLS           bool         `json:"tls"`                // TLS listener
+	PP            bool         `json:"pp,omitempty"`       // a: PROXY-protocol listener (every client sends a v1 header first)
+	TimeoutMs     int          `json:"timeout_ms"`         // shutdown timeout (a, s: config, 0 = no limit as --shutdown-timeout documents; b: context deadline, 0 = a context that is never done)
+	Upstream      bool         `json:"upstream,omitempty"` // everything the proxy sends goes through a scripted upstream HTTP proxy (CONNECT: its 200 is what a "dial" connection waits for)
+	Family        string       `json:"family,omitempty"`   // "latedial" (latedial.go); "" = general generator / matrix
+	Matrix        string       `json:"matrix,omitempty"`   // shutdown-timeout matrix (matrix.go): "none" (timeout 0) | "short" (shorter than the in-flight work) | "long"; "" = general generator
+	Op            string       `json:"op"`                 // b: "shutdown" | "close" | "shutdown+close" (Close called while Shutdown waits)
+	ListenerFirst bool         `json:"listener_first"`     // b: close the listener before Shutdown (as HTTPProxy.run does) or after it returned
+	Trigger       string       `json:"trigger"`            // "ready": once every script reached its phase; "race": DelayUs after launching them
 	DelayUs       int          `json:"delay_us"`
 	Conns         []ConnScript `json:"conns"`
 	// rig "c" (micro.go): Trials tiny shutdowns over an in-memory listener, parameters drawn from MicroSeed
@@ -55,7 +60,8 @@ type ConnScript struct {
 	//  origin   request at the origin, which answers after DelayMs (or once closing is known: Gate)
 	//  slowread origin answered BodyKB at once, the client reads slowly: the proxy is writing
 	//  tunnel   CONNECT tunnel established, echo traffic flowing
-	//  dial     (b) CONNECT whose upstream dial returns after DelayMs / once closing is known
+	//  dial     CONNECT whose upstream dial (direct: the dial itself; Upstream: the upstream proxy's 200) returns
+	//           after DelayMs / once closing is known; then echo traffic for HoldMs, then After
 	//  late     dials only after the listener is known to be closed
 	Phase       string `json:"phase"`
 	DelayMs     int    `json:"delay_ms,omitempty"`
@@ -70,7 +76,7 @@ type ConnScript struct {
 	Silent      bool   `json:"silent,omitempty"`   // accept: connects and sends nothing
 	NoBody      bool   `json:"no_body,omitempty"`  // origin: the in-flight request is answered 204 (martian's header-only writer)
 	PauseMs     int    `json:"pause_ms,omitempty"` // slowread: pause of the reader before each 64 KiB (0 = 2 ms)
-	HoldMs      int    `json:"hold_ms,omitempty"`  // tunnel: echo traffic goes on for this long after closing is known, before After
+	HoldMs      int    `json:"hold_ms,omitempty"`  // tunnel, dial: echo traffic goes on for this long after closing is known, before After
 }
 
 func (c *Case) key() string { b, _ := json.Marshal(c); return string(b) }
@@ -172,7 +178,8 @@ func gen(r *core.Rand) *Case {
 			s.DelayMs = r.Range(30, 200)
 			s.Gate = r.Chance(60)
 		}
-		if s.After == "wait" && s.Phase != "late" && (s.Phase != "accept" || s.Silent) && s.Phase != "dial" && s.Phase != "pphello" {
+		if s.After == "wait" && s.Phase != "late" && (s.Phase != "accept" || s.Silent) && s.Phase != "pphello" {
+			// (a "dial" connection that waits holds its tunnel until the forced close)
 			blocker = true
 		}
 		c.Conns = append(c.Conns, s)
